@@ -13,9 +13,13 @@ EXTENDS RefGraph
 \* relative to the root with the common string prefix cut off ("x#/...", ".d/b.json#/...").
 \* Only the relative form is affected (AbsoluteCircularRef off), and only when a reference
 \* cycle passes through such a document.
-KF_RebasePrefix(o, tmIn, cyc) ==
-  /\ ~o.opts.abs
-  /\ \E k \in cyc : o.collide[o.nodes[k].doc]
+\* In skip-schemas mode every schema $ref is rebased that way, cyclic or not.
+KF_RebasePrefix(o, tmIn, cyc, live) ==
+  \/ /\ ~o.opts.abs
+     /\ \E k \in cyc : o.collide[o.nodes[k].doc]
+  \/ /\ o.opts.skip
+     /\ \E k \in live : /\ o.nodes[k].isref /\ tmIn[k] # 0
+                         /\ o.collide[o.nodes[tmIn[k]].doc]
 
 \* KF-CHAIN-MULTIHOP (schema_loader.go deref + expander.go expandParameterOrResponse).
 \* A parameter / response / path item reached through a chain of two or more $ref hops of
